@@ -59,6 +59,24 @@ theorem X_fit_truncation (hf : Hdr → List (List UInt8)) (enc : Rec → List UI
     · refine Or.inr ⟨j, by simpa using hj, ?_, hst⟩
       rw [hrecs, List.map_take]
 
+/-- **C10 ∘ C19, the uncut file.** Reading all the bytes `fit()` wrote yields the encoding of every record of
+    `C10_records`, in order, and ends cleanly — the prefixes of `X_fit_truncation` are prefixes of this. -/
+theorem X_fit_complete (hf : Hdr → List (List UInt8)) (enc : Rec → List UInt8)
+    (hH : ∀ h, Frames (hf h)) (hR : ∀ r, scanOne (enc r) = .done [])
+    (c : FitCfg L Src Hdr Rec) (lines : List L) (ss : List Src)
+    (hp : parsePrefix c.parse lines = .ok ss) (hne : c.records ss ≠ []) :
+    ∃ fs, fitMany c lines = .ok fs ∧
+      readFile (hf c.hdr).length (serialize (fun h => (hf h).flatten) enc fs)
+        = ⟨.cleanEnd, (c.records ss).map enc⟩ := by
+  refine ⟨framesOf c.hdr (c.records ss), ?_, ?_⟩
+  · rw [C10_records, hp]; rfl
+  · rw [serialize_framesOf hf enc c.hdr _ hne]
+    have hr : Frames ((c.records ss).map enc) := by
+      intro b hb
+      obtain ⟨r, _, rfl⟩ := List.mem_map.mp hb
+      exact hR r
+    exact C19_complete (hf c.hdr) ((c.records ss).map enc) (hH c.hdr) hr
+
 end
 end SF
 
